@@ -156,17 +156,28 @@ pub fn gen_params(info: &MethodInfo, r: &mut Rng, tier: Tier, i: u64, stratify: 
 		PKind::Unit => Params::Unit,
 		PKind::Weights => {
 			let n = pick_len(r, 1, hi, i, stratify) as usize;
-			let style = r.below(4);
-			let w: Vec<Fx> = (0..n)
+			let style = r.below(5);
+			let mut w: Vec<Fx> = (0..n)
 				.map(|j| {
 					Fx(sut::vt(match style {
 						0 => 1.0,
 						1 => (j + 1) as f64,
-						2 => r.unit() + 0.01,
+						2 | 4 => r.unit() + 0.01,
 						_ => r.unit() * 2.0 - 0.6, // some negative
 					}))
 				})
 				.collect();
+			if style == 4 && n >= 2 {
+				// lagged / sparse kernels: exact zeros at the newest end, the oldest end and inside (at least one weight stays)
+				let keep = r.usize_below(n);
+				let z_new = r.usize_below(n.min(4));
+				let z_old = r.usize_below(n.min(4));
+				for (j, x) in w.iter_mut().enumerate() {
+					if j != keep && (j >= n - z_new || j < z_old || r.chance(0.15)) {
+						*x = Fx(0.0);
+					}
+				}
+			}
 			Params::Weights(w)
 		}
 		PKind::Usize => Params::Usize(match r.below(6) {
